@@ -151,11 +151,15 @@ func vh_C11_Handlers() {
 	effectOn, nextOn := -1, -1
 	x := vfInt("x")
 	m := MonadIONewGenerics(func() int { effects++; effectOn = vfGoroutineID(); return vfFn("E", x) })
-	if useOb {
-		m = m.ObserveOn(h1)
-	}
-	if useSub {
-		m = m.SubscribeOn(h2)
+	if useOb && useSub && vfChoose("builder-order", 2) == 1 {
+		m = m.SubscribeOn(h2).ObserveOn(h1)
+	} else {
+		if useOb {
+			m = m.ObserveOn(h1)
+		}
+		if useSub {
+			m = m.SubscribeOn(h2)
+		}
 	}
 	me := vfGoroutineID()
 	var got int
